@@ -510,17 +510,21 @@ class _Graph:
     """Real objects + the Python-side record of what was accepted (used only
     to build the fresh oracle; the judge re-derives it and checks)."""
 
-    def __init__(self, nsig=2):
+    def __init__(self, nsig=2, sigmode="cls"):
         import linecache
+        import typing
 
         from ovld import call_next, recurse
 
+        # sigmode "mixedlit": signature s is the annotation Literal[s, 'z<s>'] (written anew in every definition:
+        # a literal of mixed types gets a fresh Union bound per annotation); probes pass the value s
+        self.sigmode = sigmode
         self.linecache = linecache
         self.classes = _mk_classes([[], [1]] + [[k] for k in range(2, nsig + 1)])
         self.leafcls = type("Leaf", (), {"__module__": "vfworld"})
         self.log = []
         self.ns = {"LOG": self.log, "call_next": call_next, "recurse": recurse, "Leaf": self.leafcls,
-                   "__name__": "vfworld", "LEAF": self.leafcls()}
+                   "__name__": "vfworld", "LEAF": self.leafcls(), "Literal": typing.Literal}
         for c, k in enumerate(self.classes):
             if c >= 2:
                 self.ns[f"K{c}"] = k
@@ -541,7 +545,8 @@ class _Graph:
     def method(self, mid, sid):
         # a refused registration does not consume the id: key by (id, signature)
         if (mid, sid) not in self.fnc:
-            src = f"def m{mid}(x: K{sid + 1}):\n    LOG.append({mid})\n    return call_next(x)\n"
+            ann = f"K{sid + 1}" if self.sigmode == "cls" else f"Literal[{sid}, 'z{sid}']"
+            src = f"def m{mid}(x: {ann}):\n    LOG.append({mid})\n    return call_next(x)\n"
             self.fnc[(mid, sid)] = self.make_fn(f"m{mid}", src)
         return self.fnc[(mid, sid)]
 
@@ -571,7 +576,7 @@ class _Graph:
 
         del self.log[:]
         try:
-            ov(self.classes[cls]())
+            ov(self.classes[cls]() if self.sigmode == "cls" else cls - 1)
             kind = "run"
         except BaseException as exc:  # noqa
             kind = classify(exc)
@@ -604,7 +609,7 @@ class _Graph:
             ov.register(self.make_fn(f"mid{n}", f"def mid{n}(x: Mid):\n    return recurse(LEAF)\n"))
         # a recursion into the most specific K class: must walk the very chain a direct call walks
         ns[f"RK{n}"] = type(f"RK{n}", (), {"__module__": "vfworld"})
-        ns["KTOP"] = self.classes[len(self.classes) - 1]()
+        ns["KTOP"] = self.classes[len(self.classes) - 1]() if self.sigmode == "cls" else len(self.classes) - 2
         ov.register(self.make_fn(f"rk{n}", f"def rk{n}(x: RK{n}):\n    return recurse(KTOP)\n"))
         # two-argument recursion nested in an argument of another recursion, on one source line:
         # recurse(a, recurse(b, c)) must be f(a, f(b, c)) for the function the call came through
@@ -666,7 +671,7 @@ def graph_replay(jobs):
     out = []
     for job in jobs:
         nsig = job.get("nsig", 2)
-        g = _Graph(nsig)
+        g = _Graph(nsig, job.get("sigmode", "cls"))
         steps = []
         drift = None
         N = job["n"]
